@@ -164,6 +164,12 @@ impl RootBuilder {
             block.records.retain(|r| r.file_data_id != fdid);
             if block.records.len() < original_len {
                 removed = true;
+                // Keep the block header's record count in step with the records:
+                // `build` writes it and sums it into the file header.
+                #[allow(clippy::cast_possible_truncation)]
+                {
+                    block.header.num_records = block.records.len() as u32;
+                }
             }
         }
 
@@ -187,6 +193,12 @@ impl RootBuilder {
             let original_len = block.records.len();
             block.records.retain(|r| r.file_data_id != fdid);
             let removed = block.records.len() < original_len;
+            // Keep the block header's record count in step with the records:
+            // `build` writes it and sums it into the file header.
+            #[allow(clippy::cast_possible_truncation)]
+            {
+                block.header.num_records = block.records.len() as u32;
+            }
 
             // Clean up empty block
             if block.records.is_empty() {
